@@ -143,13 +143,13 @@ pub fn recorded_challenges<G: Cv>(env: &Env<G>, prog: &Program, comms: &[G], par
 pub fn make_bases<G: Cv>(env: &Env<G>, progs: &[&Program], seed: u64) -> Vec<Base<G>> {
     let mut out = vec![];
     for p in progs {
-        let pr = program::prove::<G>(p, &env.pc, &env.bp, seed, "c03", Dev::None);
+        let Ok(pr) = program::try_prove::<G>(p, &env.pc, &env.bp, seed, "c03", Dev::None) else { continue };
         if let Ok(b) = &pr.proof {
             out.push(Base { name: p.name(), prog: (*p).clone(), comms: pr.commitments.clone(), parts: Parts::<G>::parse(b).expect("parse"), kind: "honest" });
         }
         let (w, _, _, _) = p.stats();
         if w > 0 && (out.len() % 3 == 1) {
-            let pr = program::prove::<G>(p, &env.pc, &env.bp, seed, "c03", Dev::Witness { idx: w - 1, delta: G::ScalarField::one() });
+            let Ok(pr) = program::try_prove::<G>(p, &env.pc, &env.bp, seed, "c03", Dev::Witness { idx: w - 1, delta: G::ScalarField::one() }) else { continue };
             if let Ok(b) = &pr.proof {
                 out.push(Base { name: format!("{} [bad witness]", p.name()), prog: (*p).clone(), comms: pr.commitments.clone(), parts: Parts::<G>::parse(b).expect("parse"), kind: "bad-witness" });
             }
